@@ -67,18 +67,32 @@ type MVal struct {
 }
 
 func (e MVal) Error() string { return fmt.Sprintf("mval:%d:%s", e.A, e.B) }
+// zero fields are omitted on the wire and only the fields present are assigned when decoding (what plain
+// struct decoding with omitempty does): a decode target that is not fresh keeps stale fields
 func (e MVal) MarshalJSON() ([]byte, error) {
-	return json.Marshal(map[string]interface{}{"a": e.A, "b": e.B})
+	m := map[string]interface{}{}
+	if e.A != 0 {
+		m["a"] = e.A
+	}
+	if e.B != "" {
+		m["b"] = e.B
+	}
+	return json.Marshal(m)
 }
 func (e *MVal) UnmarshalJSON(b []byte) error {
 	var m struct {
-		A int    `json:"a"`
-		B string `json:"b"`
+		A *int    `json:"a"`
+		B *string `json:"b"`
 	}
 	if err := json.Unmarshal(b, &m); err != nil {
 		return err
 	}
-	e.A, e.B = m.A, m.B
+	if m.A != nil {
+		e.A = *m.A
+	}
+	if m.B != nil {
+		e.B = *m.B
+	}
 	return nil
 }
 
@@ -214,6 +228,9 @@ func mkErr(kind int, msg string, a int) error {
 	case kMPtr:
 		return &MPtr{A: a, B: msg}
 	case kMVal:
+		if a%3 == 0 {
+			return MVal{A: a} // every third one has no text
+		}
 		return MVal{A: a, B: msg}
 	case kCodecS:
 		return &CodecS{Msg: msg, Data: fmt.Sprintf("d%d", a)}
